@@ -514,6 +514,9 @@ def all_encodings(rng, cls):
     encs.append({"ranks": [(2**60 + 256 * c + 1) if c % 2 else float(2**60 + 256 * c) for c in cls]})
     encs.append({"scores": [(2**53 + 2 * k - c) if (c % 2) else float(2**53 + 2 * k - c - (c % 2)) for c in cls]})
     encs.append({"ranks": [10**18 + c for c in cls]})
+    encs.append({"ranks": [10**400 + c for c in cls]})              # ints no double can hold, not even as inf
+    encs.append({"scores": [-(10**310) * (c + 1) for c in cls]})
+    encs.append({"ranks": [(-(2**1024) if c == 0 else c) for c in cls]})
     encs.append({"ranks": [-(2**60) + c for c in cls]})
     encs.append({"scores": [2**53 + 2 * k - c for c in cls]})
     encs.append({"scores": [10**20 - c for c in cls]})
@@ -1029,6 +1032,15 @@ def object_campaign(sess, rng, count, kinds=KINDS):
             sess.ordinal(a, z=2)
             sess.ordinal(a)
             sess.sort([a, b, mh.m.rating(a.mu, a.sigma)])
+            # after an edit the first question is asked with another z than the one asked before it
+            sess.assign(a, a.mu - 7.0, a.sigma * 0.5)
+            sess.ordinal(a, z=rng.choice([2, 1.0, 0]))
+            sess.ordinal(a)
+            sess.compare(rng.choice(["lt", "le", "gt", "ge"]), a, b)
+            sess.assign(a, a.mu + 3.0, a.sigma)
+            sess.ordinal(a, z=3.0)
+            sess.ordinal(a, z=2)
+            sess.sort([b, a, mh.m.rating(a.mu, a.sigma)])
         # copies
         sess.deepcopy(pool[0])
         nested = [[pool[0], pool[1]], [pool[2]]]
@@ -1591,8 +1603,18 @@ def thread_executions_fine(sess, rng, count, thread_log, kinds=("TMF", "TMP", "P
             vals = random_vals(rng, shape, beta, False)
             vals = [[(mu, min(sg, 2 * beta)) for (mu, sg) in tv] for tv in vals]
             n = len(shape)
-            ranks = [0] * n if rng.random() < 0.6 else weak_order(rng, n)      # ties: the draw kernels
-            kw = {"ranks": ranks}
+            style = ci % 3
+            if style == 0:
+                ranks = [0] * n if rng.random() < 0.6 else weak_order(rng, n)      # ties: the draw kernels
+                kw = {"ranks": ranks}
+            else:
+                # strict outcomes that sort the two games differently (whatever one call leaves behind for the sort,
+                # the pairing or the un-sorting is wrong for the other)
+                order = list(range(n))
+                while order == sorted(order) or (t == 1 and n == len(calls[0]["kw"].get("ranks", calls[0]["kw"].get("scores"))) and
+                                                 order == [int(v) for v in calls[0]["kw"].get("ranks", calls[0]["kw"].get("scores"))]):
+                    rng.shuffle(order)
+                kw = {"ranks": [float(v) for v in order]} if style == 1 else {"scores": [float(v) for v in order]}
             if rng.random() < 0.3:
                 kw["limit_sigma"] = True
             calls.append({"op": "rate", "vals": vals, "kw": kw})
